@@ -41,6 +41,21 @@ theorem quiet_checkpoint_freezes (net : Net σ ε) (s1 s2 : St σ ε) (hq : Quie
   have hinv := phaseInv_run net s1 labels (Or.inl hnf) s1 s2 (phaseInv_refl net s1 hq hp ha) hrun
   exact ⟨hinv.todo, hinv.out, hinv.eng, fun c hc => ⟨hinv.pend c hc, hinv.bars c hc⟩⟩
 
+/-- … and restoring every context from such a checkpoint and replaying the inputs that were not
+yet consumed *is* going back to the state at injection time: the restored system has the engines,
+the (empty) inboxes and exactly the pending inputs of that moment, so its runs are the
+continuations of the original run — nothing passed between contexts is lost or duplicated.
+(One snapshot per context: the assembled checkpoint covers all `n` contexts.) -/
+theorem quiet_restore_is_rollback (net : Net σ ε) (hd : net.dflt < net.n) (inputs : List ε)
+    (σ0 : Nat → σ) (s1 s2 : St σ ε) (h1 : Reach net (init inputs σ0) s1) (hq : Quiescent net s1)
+    (hp : s1.pending = none) (ha : s1.acks = []) (labels : List Label) (hnf : Label.feed ∉ labels)
+    (hrun : runL net s1 labels = some s2) :
+    ∃ new, s2.done = s1.done ++ new ∧ ∀ ck ∈ new,
+      (restore net inputs σ0 ck.2).todo = s1.todo ∧
+      ∀ c, c < net.n → (restore net inputs σ0 ck.2).eng c = s1.eng c ∧
+        (restore net inputs σ0 ck.2).inbox c = s1.inbox c ∧ (restore net inputs σ0 ck.2).pend c = s1.pend c :=
+  quiet_restore net hd inputs σ0 s1 s2 h1 hq hp ha labels hnf hrun
+
 /-- The full-strength statement fails. Two contexts (context 0 feeds context 1), barriers injected
 while input `1` is still queued at context 0: context 1 takes its barrier first, context 0
 processes the input and forwards `11`, then takes its own barrier. The completed checkpoint is not
